@@ -1,7 +1,8 @@
 /-
 C08 — Behaviour depends on the byte stream, not on how it is cut into input calls.
 Property theorems only; helper lemmas in ScpiVerif/Lemmas/Chunking*.lean, vocabulary
-(`Observable`, `NoQuotes`, `NoCR`, `Fits`) in ScpiVerif/Spec/Chunking.lean (this namespace).
+(`Observable`, `UserObservable`, `NoQuotes`, `QuotesLineLocal`, `NoCR`, `Fits`) in ScpiVerif/Spec/Chunking.lean
+(this namespace).
 
 PARTIAL: the full statement is FALSE for the library as it is (known finding, DESIGN.md section 8 #10):
 the scan of SCPI_Input for a message terminator knows about definite-length blocks but not about quoted
@@ -19,12 +20,23 @@ What is proved:
   characters (CR LF and lone CR terminators allowed) in any partition that does not cut directly after a CR
   (`…_cr_partial`).
 Definite-length blocks are covered throughout.
+* EXTENSION (`…_quotes`): all of the above with `NoQuotes` weakened to `QuotesLineLocal` — quote characters are
+  allowed as long as no quoted string (a word of the string language of the token specification that starts
+  directly after a blank or a comma, the only places where the library looks for a string) contains LF or CR:
+  `input_split_quotes`, `chunking_invariant_quotes`, `chunking_bytewise_quotes` (`UserObservable`, any
+  partition), `input_split_cr_quotes`, `chunking_invariant_cr_quotes` (`Observable`, no cut directly after a CR),
+  `input_split_nocr_quotes`, `chunking_invariant_nocr_quotes`, `chunking_bytewise_nocr_quotes` (`Observable`,
+  streams without CR, any partition), `scan_prefix_stable_quotes`.  `NoQuotes s → QuotesLineLocal s`
+  (`quotesLineLocal_of_noQuotes`), the predicate is a computation (`quotesLineLocal_iff`; `Decidable` instance in Lemmas/ChunkingQuote.lean), the stream
+  `TXT "a;b",'c'<LF>` satisfies it (`quotes_example`) and the stream of `chunking_counterexample` does not
+  (`counterexample_not_quotesLineLocal`).  The `…_noquote` / `…_partial` theorems are special cases.
 -/
 import ScpiVerif.Model.Ctx
 import ScpiVerif.Spec.Chunking
 import ScpiVerif.Lemmas.Chunking
 import ScpiVerif.Lemmas.ParseLocal
 import ScpiVerif.Lemmas.ChunkingCR
+import ScpiVerif.Lemmas.ChunkingQuoteTop
 
 namespace ScpiVerif.Props.C08
 open ScpiVerif ScpiVerif.Ctx ScpiVerif.Lexer
@@ -90,7 +102,7 @@ taken by bytes that are present in `s` — unless `s` ends in a CR, which a foll
 (no hypothesis on CR otherwise) -/
 theorem scan_prefix_stable (s y : Bytes) (k : Nat) (hq : NoQuotes (s ++ y)) (hcut : s.getLast? ≠ some 13)
     (h : Lemmas.Chunking.scan s = some k) : Lemmas.Chunking.scan (s ++ y) = some k :=
-  Lemmas.Chunking.scan_stable s y k hq hcut h
+  Lemmas.Chunking.scan_stable s y k (Lemmas.Chunking.noQuotes_qll hq) hcut h
 
 /-- CR allowed: splitting one chunk in two changes nothing observable when the stream has no quote
 characters and the cut is not directly after a CR. -/
@@ -138,7 +150,102 @@ theorem chunking_bytewise_noquote (c : Ctx) (h : WF c) (cs : List Bytes)
 theorem input_split_noquote (c : Ctx) (h : WF c) (a b : Bytes) (ha : a ≠ []) (hb : b ≠ [])
     (hfit : Fits c (a.length + b.length)) (hq : NoQuotes (c.buf.take c.position ++ a ++ b)) :
     UserObservable (input (input c a) b) = UserObservable (input c (a ++ b)) :=
+  (Lemmas.Chunking.inputU_split c h a b ha hb hfit (Lemmas.Chunking.noQuotes_qll hq)).obs
+
+/-! ## streams with quoted strings: `NoQuotes` weakened to `QuotesLineLocal`
+
+The hypothesis: no quoted string contains a line terminator (Spec/Chunking.lean).  A line terminator inside a
+quoted string is exactly what `chunking_counterexample` uses, so the hypothesis cannot be dropped; it is stated
+conservatively for every quote character that directly follows a blank or a comma, whether or not the scan of
+SCPI_Input reaches it in a string position. -/
+
+/-- the quote-free streams are a special case -/
+theorem quotesLineLocal_of_noQuotes (s : Bytes) (h : NoQuotes s) : QuotesLineLocal s :=
+  Lemmas.Chunking.noQuotes_qll h
+
+/-- the hypothesis is a computation on the byte stream (the `Decidable` instance derived from this is in
+Lemmas/ChunkingQuote.lean; the examples below evaluate it in the kernel) -/
+theorem quotesLineLocal_iff (s : Bytes) : quotesLineLocalB s = true ↔ QuotesLineLocal s :=
+  Lemmas.Chunking.quotesLineLocalB_iff s
+
+/-- splitting one chunk in two, anywhere (inside a quoted string, directly after a CR), changes nothing the
+user can observe -/
+theorem input_split_quotes (c : Ctx) (h : WF c) (a b : Bytes) (ha : a ≠ []) (hb : b ≠ [])
+    (hfit : Fits c (a.length + b.length)) (hq : QuotesLineLocal (c.buf.take c.position ++ a ++ b)) :
+    UserObservable (input (input c a) b) = UserObservable (input c (a ++ b)) :=
   (Lemmas.Chunking.inputU_split c h a b ha hb hfit hq).obs
+
+/-- ANY two partitions into non-empty chunks of a stream (pending bytes included) in which no quoted string
+contains a line terminator: the user sees the same handlers, parameters, errors, output, flushes, registers,
+error queue and remainder -/
+theorem chunking_invariant_quotes (c : Ctx) (h : WF c) (cs cs' : List Bytes)
+    (hne : (∀ x ∈ cs, x ≠ []) ∧ (∀ x ∈ cs', x ≠ [])) (hs : cs.flatten = cs'.flatten) (hcs : cs ≠ [])
+    (hfit : Fits c cs.flatten.length) (hq : QuotesLineLocal (c.buf.take c.position ++ cs.flatten)) :
+    UserObservable (cs.foldl input c) = UserObservable (cs'.foldl input c) :=
+  Lemmas.Chunking.chunking_invariant_quotes c h cs cs' hne hs hcs hfit hq
+
+theorem flatten_singletons (s : Bytes) : (s.map fun b => [b]).flatten = s := by
+  induction s with
+  | nil => rfl
+  | cons a t ih => simp [ih]
+
+theorem singletons_ne_nil (s : Bytes) : ∀ x ∈ s.map (fun b => [b]), x ≠ [] := by
+  intro x hx
+  obtain ⟨b, _, rfl⟩ := List.mem_map.1 hx
+  simp
+
+/-- in particular any partition behaves, for the user, like feeding the stream one byte at a time -/
+theorem chunking_bytewise_quotes (c : Ctx) (h : WF c) (cs : List Bytes)
+    (hne : ∀ x ∈ cs, x ≠ []) (hcs : cs ≠ [])
+    (hfit : Fits c cs.flatten.length) (hq : QuotesLineLocal (c.buf.take c.position ++ cs.flatten)) :
+    UserObservable (cs.foldl input c) = UserObservable ((cs.flatten.map fun b => [b]).foldl input c) :=
+  chunking_invariant_quotes c h cs _ ⟨hne, singletons_ne_nil _⟩ (flatten_singletons _).symm hcs hfit hq
+
+/-- `Observable` (message boundaries included): splitting one chunk in two, not directly after a CR -/
+theorem input_split_cr_quotes (c : Ctx) (h : WF c) (a b : Bytes) (ha : a ≠ []) (hb : b ≠ [])
+    (hfit : Fits c (a.length + b.length)) (hq : QuotesLineLocal (c.buf.take c.position ++ a ++ b))
+    (hcut : a.getLast? ≠ some 13) :
+    Observable (input (input c a) b) = Observable (input c (a ++ b)) :=
+  Lemmas.Chunking.input_split_cr_quotes c h a b ha hb hfit hq hcut
+
+/-- `Observable`: two partitions neither of which cuts directly after a CR -/
+theorem chunking_invariant_cr_quotes (c : Ctx) (h : WF c) (cs cs' : List Bytes)
+    (hne : (∀ x ∈ cs, x ≠ []) ∧ (∀ x ∈ cs', x ≠ [])) (hs : cs.flatten = cs'.flatten) (hcs : cs ≠ [])
+    (hfit : Fits c cs.flatten.length) (hq : QuotesLineLocal (c.buf.take c.position ++ cs.flatten))
+    (hcut : (∀ x ∈ cs, x.getLast? ≠ some 13) ∧ (∀ x ∈ cs', x.getLast? ≠ some 13)) :
+    Observable (cs.foldl input c) = Observable (cs'.foldl input c) :=
+  Lemmas.Chunking.chunking_invariant_cr_quotes c h cs cs' hne hs hcs hfit hq hcut
+
+/-- `Observable`, streams without CR: splitting one chunk in two, anywhere -/
+theorem input_split_nocr_quotes (c : Ctx) (h : WF c) (a b : Bytes) (ha : a ≠ []) (hb : b ≠ [])
+    (hfit : Fits c (a.length + b.length)) (hq : QuotesLineLocal (c.buf.take c.position ++ a ++ b))
+    (hcr : NoCR (c.buf.take c.position ++ a ++ b)) :
+    Observable (input (input c a) b) = Observable (input c (a ++ b)) :=
+  input_split_cr_quotes c h a b ha hb hfit hq
+    (fun h13 => hcr 13 (List.mem_append_left _ (List.mem_append_right _ (List.mem_of_getLast? h13))) rfl)
+
+/-- `Observable`, streams without CR: any two partitions -/
+theorem chunking_invariant_nocr_quotes (c : Ctx) (h : WF c) (cs cs' : List Bytes)
+    (hne : (∀ x ∈ cs, x ≠ []) ∧ (∀ x ∈ cs', x ≠ [])) (hs : cs.flatten = cs'.flatten) (hcs : cs ≠ [])
+    (hfit : Fits c cs.flatten.length) (hq : QuotesLineLocal (c.buf.take c.position ++ cs.flatten))
+    (hcr : NoCR (c.buf.take c.position ++ cs.flatten)) :
+    Observable (cs.foldl input c) = Observable (cs'.foldl input c) :=
+  chunking_invariant_cr_quotes c h cs cs' hne hs hcs hfit hq
+    ⟨Lemmas.Chunking.noCR_chunks hcr, Lemmas.Chunking.noCR_chunks (by rw [← hs]; exact hcr)⟩
+
+/-- `Observable`, streams without CR: any partition behaves like feeding the stream one byte at a time -/
+theorem chunking_bytewise_nocr_quotes (c : Ctx) (h : WF c) (cs : List Bytes)
+    (hne : ∀ x ∈ cs, x ≠ []) (hcs : cs ≠ [])
+    (hfit : Fits c cs.flatten.length) (hq : QuotesLineLocal (c.buf.take c.position ++ cs.flatten))
+    (hcr : NoCR (c.buf.take c.position ++ cs.flatten)) :
+    Observable (cs.foldl input c) = Observable ((cs.flatten.map fun b => [b]).foldl input c) :=
+  chunking_invariant_nocr_quotes c h cs _ ⟨hne, singletons_ne_nil _⟩ (flatten_singletons _).symm hcs hfit hq hcr
+
+/-- when the scan of SCPI_Input finds a complete message in the pending bytes `s`, it finds the same message
+when more bytes `y` follow — also when `s` ends inside a quoted string — unless `s` ends in a CR -/
+theorem scan_prefix_stable_quotes (s y : Bytes) (k : Nat) (hq : QuotesLineLocal (s ++ y)) (hcut : s.getLast? ≠ some 13)
+    (h : Lemmas.Chunking.scan s = some k) : Lemmas.Chunking.scan (s ++ y) = some k :=
+  Lemmas.Chunking.scan_stable s y k hq hcut h
 
 /-- a zero-length call executes whatever is buffered as one complete message and empties the buffer -/
 theorem flush_executes_pending (c : Ctx) (h : WF c) :
@@ -161,6 +268,85 @@ theorem chunking_counterexample :
   revert h1
   simp only [Observable]
   decide +kernel +zetaReduce
+
+/-! ## the `…_quotes` theorems on a concrete stream with quoted strings
+
+`TXT "a;b",'c'<LF>`, a command that reads two text parameters: the hypotheses hold, the stream cut inside the
+first string (after the semicolon), cut after every byte, and fed whole gives the same events. -/
+
+/-- the context, the stream and its first 7 bytes `TXT "a;` -/
+def exCtx : Ctx := Ctx.init [⟨[84, 88, 84], 1, [.pText true 16, .pText true 16]⟩] [] 64 4 true
+def exStream : Bytes := [84, 88, 84, 32, 34, 97, 59, 98, 34, 44, 39, 99, 39, 10]
+
+theorem quotes_example :
+    WF exCtx ∧ Fits exCtx exStream.length ∧ QuotesLineLocal (exCtx.buf.take exCtx.position ++ exStream) ∧
+    ¬ NoQuotes (exCtx.buf.take exCtx.position ++ exStream) ∧
+    -- the scan of the first piece finds no message, the scan of the whole stream finds the whole line
+    Lemmas.Chunking.scan (exStream.take 7) = none ∧ Lemmas.Chunking.scan exStream = some 14 ∧
+    (input exCtx exStream).events =
+      [.parseMsg exStream, .handler 1 [84, 88, 84], .pText true [97, 59, 98] true, .pText true [99] true, .input true] ∧
+    (input (input exCtx (exStream.take 7)) (exStream.drop 7)).events =
+      [.input true, .parseMsg exStream, .handler 1 [84, 88, 84], .pText true [97, 59, 98] true, .pText true [99] true,
+       .input true] ∧
+    (((exStream.map fun b => [b]).foldl input exCtx).events.filter (fun e => match e with | .input _ => false | _ => true)) =
+      [.parseMsg exStream, .handler 1 [84, 88, 84], .pText true [97, 59, 98] true, .pText true [99] true] := by
+  refine ⟨by unfold WF; decide, by unfold Fits; decide, by decide +kernel, ?_, by decide +kernel, by decide +kernel, by decide +kernel,
+    by decide +kernel, by decide +kernel⟩
+  intro h
+  exact (h 34 (by decide)).1 rfl
+
+/-- `input_split_quotes` applies to the stream cut inside the first string -/
+theorem input_split_quotes_example :
+    UserObservable (input (input exCtx (exStream.take 7)) (exStream.drop 7)) = UserObservable (input exCtx exStream) :=
+  input_split_quotes exCtx quotes_example.1 (exStream.take 7) (exStream.drop 7) (by decide) (by decide) (by unfold Fits; decide)
+    (by decide +kernel)
+
+/-- `input_split_cr_quotes` too: also the message boundaries are the same -/
+theorem input_split_cr_quotes_example :
+    Observable (input (input exCtx (exStream.take 7)) (exStream.drop 7)) = Observable (input exCtx exStream) :=
+  input_split_cr_quotes exCtx quotes_example.1 (exStream.take 7) (exStream.drop 7) (by decide) (by decide) (by unfold Fits; decide)
+    (by decide +kernel) (by decide)
+
+/-- `chunking_invariant_quotes` / `chunking_invariant_cr_quotes` / `chunking_invariant_nocr_quotes`: the partition
+`TXT "a;` `b",'` `c'<LF>` against the partition `TXT ` `"a;b",'c'<LF>` -/
+theorem chunking_invariant_quotes_example :
+    let cs : List Bytes := [exStream.take 7, (exStream.drop 7).take 4, exStream.drop 11]
+    let cs' : List Bytes := [exStream.take 4, exStream.drop 4]
+    UserObservable (cs.foldl input exCtx) = UserObservable (cs'.foldl input exCtx) ∧
+    Observable (cs.foldl input exCtx) = Observable (cs'.foldl input exCtx) := by
+  intro cs cs'
+  have hne : (∀ x ∈ cs, x ≠ []) ∧ (∀ x ∈ cs', x ≠ []) := by decide
+  have hs : cs.flatten = cs'.flatten := by decide
+  have hq : QuotesLineLocal (exCtx.buf.take exCtx.position ++ cs.flatten) := by decide +kernel
+  exact ⟨chunking_invariant_quotes exCtx quotes_example.1 cs cs' hne hs (by decide) (by unfold Fits; decide) hq,
+    chunking_invariant_cr_quotes exCtx quotes_example.1 cs cs' hne hs (by decide) (by unfold Fits; decide) hq (by decide)⟩
+
+/-- `chunking_bytewise_quotes` / `chunking_bytewise_nocr_quotes`: the stream in one piece against one byte at a time -/
+theorem chunking_bytewise_quotes_example :
+    UserObservable (input exCtx exStream) = UserObservable ((exStream.map fun b => [b]).foldl input exCtx) ∧
+    Observable (input exCtx exStream) = Observable ((exStream.map fun b => [b]).foldl input exCtx) := by
+  have hq : QuotesLineLocal (exCtx.buf.take exCtx.position ++ [exStream].flatten) := by decide +kernel
+  exact ⟨chunking_bytewise_quotes exCtx quotes_example.1 [exStream] (by decide) (by decide) (by unfold Fits; decide) hq,
+    chunking_bytewise_nocr_quotes exCtx quotes_example.1 [exStream] (by decide) (by decide) (by unfold Fits; decide) hq (by unfold NoCR; decide)⟩
+
+/-- `scan_prefix_stable_quotes` on `TXT "a;b",'c'<LF>` followed by the start of a next line that ends inside a string -/
+theorem scan_prefix_stable_quotes_example :
+    Lemmas.Chunking.scan (exStream ++ [84, 88, 84, 32, 34, 97]) = some 14 :=
+  scan_prefix_stable_quotes exStream [84, 88, 84, 32, 34, 97] 14 (by decide +kernel) (by decide) quotes_example.2.2.2.2.2.1
+
+/-- the stream of `chunking_counterexample`, `TXT "a<LF>b"<LF>`, does not satisfy the hypothesis: the string
+`"a<LF>b"` follows a blank and contains a line feed -/
+theorem counterexample_not_quotesLineLocal : ¬ QuotesLineLocal [84, 88, 84, 32, 34, 97, 10, 98, 34, 10] := by
+  decide +kernel
+
+/-- and the hypothesis cannot be replaced by a pairing of the quotes line by line: in `A"B "x<LF>y" "<LF>` every
+line has an even number of quotes, yet fed whole the scan takes `"x<LF>y"` for a string and finds one message of
+14 bytes, and cut after the first line it finds the message `A"B "x<LF>` — the predicate rejects this stream -/
+theorem pairing_is_not_enough :
+    let s : Bytes := [65, 34, 66, 32, 34, 120, 10, 121, 34, 32, 34, 10]
+    Lemmas.Chunking.scan s = some 12 ∧ Lemmas.Chunking.scan (s.take 7) = some 7 ∧ ¬ QuotesLineLocal s := by
+  intro s
+  exact ⟨by decide +kernel, by decide +kernel, by decide +kernel⟩
 
 /-- second difference, benign: `A 1<CR><LF>` fed whole is one message ending in CR LF; cut between CR
 and LF, the CR ends the message and the LF is parsed as an empty message of its own.  The handler
